@@ -3,7 +3,7 @@
    Coq's N / positive / nat datatypes.  No Extract Constant, no other Extract Inductive. *)
 From Coq Require Import NArith List.
 From Coq Require Extraction ExtrOcamlBasic.
-From ZB Require Import Base.Bytes Crc.CrcSpec Crc.CrcModel Link.LLHeader Link.LinkSpec Link.Frame Link.Frag Link.Resync Link.Rx Link.RxSpec.
+From ZB Require Import Base.Bytes Crc.CrcSpec Crc.CrcModel Link.LLHeader Link.LinkSpec Link.Frame Link.Frag Link.Resync Link.Rx Link.RxSpec Link.TxSeq.
 
 Extraction Language OCaml.
 Set Extraction KeepSingleton.
@@ -13,4 +13,5 @@ Extraction "../ocaml/gen/model.ml"
   serialize to_frame stamp ack_frame tx_fragment count_fragments_n frag_body
   spec_decode spec_encode claims
   extract_frame_x data_received
-  spec_parse_pos spec_ack_bytes waits.
+  spec_parse_pos spec_ack_bytes waits
+  trun.
